@@ -215,6 +215,8 @@ class MustCheck:
     def check_paths(self, body, key, removed_blocks, removed_edges, what, n_discharges):
         path = find_path(body, set(removed_blocks), set(removed_edges))
         ok = path is None
+        if getattr(self, "_silent", 0):
+            return ok          # probing a private helper: nothing is recorded unless it turns out to reject
         self.ctx.ob(self.rule, key, ok, body.where(),
                     ("every entry→return path passes one of %d discharging sites (%s)" % (n_discharges, what)) if ok else
                     ("a path reaches `return` without ever comparing the position with the length (%s): %s"
@@ -235,6 +237,23 @@ class MustCheck:
         # delegation
         for bb, t in body.calls():
             cb = self.prog.local_callee_body(t)
+            if cb is not None and cb.key not in self.verified and cb.key not in self.prog.exported and not cb.is_closure \
+                    and cb.key != body.key and getattr(self, "_probe_depth", 0) < 2:
+                # a private helper that receives the array first and the position unchanged (`stash_pivot(self, pivot_index)`): if the
+                # helper itself rejects an out-of-range position on every path, calling it discharges the obligation here
+                cargs = body.call_arg_exprs(bb)
+                if cargs and recv_ok(base_of(cargs[0])[0]) and not base_of(cargs[0])[1]:
+                    hits = [i_ + 1 for i_, a_ in enumerate(cargs) if i_ > 0 and pos_is(strip(a_))]
+                    if len(hits) == 1:
+                        self._silent = getattr(self, "_silent", 0) + 1
+                        self._probe_depth = getattr(self, "_probe_depth", 0) + 1
+                        try:
+                            okh = self.strict(cb, hits[0], recv=1)
+                        finally:
+                            self._silent -= 1
+                            self._probe_depth -= 1
+                        if not okh:
+                            self.verified.pop(cb.key, None)
             if cb is None or cb.key not in self.verified:
                 continue
             vpos, vkind = self.verified[cb.key]
